@@ -218,6 +218,31 @@ func c03Script(c *vf.Case, w *sim.World) {
 					c03Compare(c, w, "Close-after-descriptor-closed-underneath")
 					break
 				}
+				if r.Bool() {
+					// one direction registered, the descriptor goes away underneath, then the OTHER direction is started
+					// at the dispatch limit: modifying the registration fails, that operation completes with the error
+					// and is not counted - the first one still is
+					dir := r.Intn(2)
+					w.StartStream(o, dir, false, 64, sim.BNone, nil, true)
+					c03Compare(c, w, "start")
+					c.Logf("  %s: one direction registered, descriptor closed underneath, forced start of the other direction", o)
+					_ = syscall.Close(o.Raw)
+					if op := w.StartStream(o, 1-dir, false, 64, sim.BNone, nil, true); op != nil {
+						c.Count("failed_second_registrations_on_a_dead_descriptor", 1)
+						if op.Calls == 0 {
+							if op.Dir == 0 {
+								o.Rd = nil
+							} else {
+								o.Wr = nil
+							}
+							op.Calls = -1
+						}
+					}
+					c03Compare(c, w, "failed-second-registration-closed-descriptor")
+					w.Close(o)
+					c03Compare(c, w, "Close")
+					break
+				}
 				c.Logf("  %s: descriptor closed underneath, then a forced start", o)
 				_ = syscall.Close(o.Raw)
 				op := w.StartStream(o, r.Intn(2), false, 64, sim.BNone, nil, true)
